@@ -177,3 +177,20 @@ Definition table_le (M : Q) (tbl : list (text * score)) : bool :=
   forallb (fun kv => notes_le M (snd (snd kv))) tbl.
 Definition tone_le (T : Z) (e : ev) : Prop :=
   match e with Tone _ t => 0 <= t <= T | _ => True end.
+
+(* ---- tone(pin, 0): a frequency in (0, 1/2) is positive, passes every `> 0.0f` test of the firmware and
+   is rounded to tone(pin, 0).  [audible_arg f]: f is not in that interval ---- *)
+Definition audible_arg (f : Q) : bool := qle f q0 || qle qhalf f.
+Definition half_guard (tbl : list (text * score)) (last : Q) (o : op) : bool :=
+  match o with
+  | PlayTone f _ => audible_arg f
+  | Stop => true
+  | Beep (Some f) _ _ _ => audible_arg f
+  | Beep None _ _ _ => audible_arg last
+  | Sweep s e _ _ => (qle s q0 && qle e q0) || (qle qhalf s && qle qhalf e)
+  | Melody name _ =>
+      match tlookup name tbl with
+      | Some (_, seq) => forallb (fun fb => audible_arg (fst fb)) seq
+      | None => true
+      end
+  end.
